@@ -8,18 +8,19 @@ import re
 BASE = '/verif/seeded'
 # seed id -> (property, [(check property, tier, outcome, which obligation reported it)])
 RESULTS = {
-    "C09-bilinearity-and-instead-of-or": ("C09", [("C09", "quick", "VIOLATION", "kani alg::n2::bilinearity_ clause C09:bilinearity_ok_iff_law")]),
-    "C11-zip-longest-left-ended-right-pending": ("C11", [("C11", "quick", "VIOLATION", "kani pull::zip_longest::vk_harness::zip_longest_step")]),
-    "C11-cross-singleton-item-lost-on-singleton-pending": ("C11", []),
-    "C12-fold-keyed-refinalize-duplicates": ("C12", [("C12", "quick", "missed", "FoldKeyed is only in the thorough tier (real std HashMap, one key)")]),
-    "C13-join-probe-before-build-duplicates": ("C13", [("C13", "quick", "VIOLATION", "kani symmetric_hash_join_history_set_trace clause C13:emitted_plus_queued_equals_join_size")]),
-    "C14-lazy-sink-first-item-lost-on-pending": ("C14", [("C14", "quick", "VIOLATION", "kani lazy::vk_harness::lazy_sink_step")]),
-    "C14-flat-map-buffer-taken-before-ready": ("C14", []),
-    "C15-merge-source-cursor-fixup-live-cursor": ("C15", [("C15", "quick", "VIOLATION", "kani merge_one_poll_n4 (4 clauses; needs >= 4 sources)")]),
-    "C02-tombstone-map-merge-flag-lost": ("C02", []),
-    "C03-optionset-is-empty-inverted": ("C03", []),
-    "C04-dompair-incomparable-keys-value-not-merged": ("C04", []),
-    "C10-counted-hash-set-eq-ignores-counts": ("C10", []),
+    "C09-bilinearity-and-instead-of-or": ("C09", [("C09", "quick", "VIOLATION", "kani vk_lat alg::n2::bilinearity_ clause C09:bilinearity_ok_iff_law")]),
+    "C11-zip-longest-left-ended-right-pending": ("C11", [("C11", "quick", "VIOLATION", "kani ov_pipes pull::zip_longest::vk_harness::zip_longest_step clause C11:zip_longest_ends_iff_both_ended_and_nothing_buffered")]),
+    "C11-cross-singleton-item-lost-on-singleton-pending": ("C11", [("C11", "quick", "VIOLATION", "kani ov_pipes pull::cross_singleton::vk_harness::cross_singleton_step clause C11:cross_singleton_no_items_consumed_before_singleton")]),
+    "C12-fold-keyed-refinalize-duplicates": ("C12", [("C12", "quick", "missed", "FoldKeyed is only in the thorough tier (real std HashMap, one key, ~100 s per harness)"),
+                                                     ("C12", "thorough", "VIOLATION", "kani ov_pipes push::fold_keyed::vk_slow::fold_keyed_finalize_history_trace clause C12:never_sends_after_finalizing")]),
+    "C13-join-probe-before-build-duplicates": ("C13", [("C13", "quick", "VIOLATION", "kani ov_pipes symmetric_hash_join_history_set_trace clause C13:emitted_plus_queued_equals_join_size")]),
+    "C14-lazy-sink-first-item-lost-on-pending": ("C14", [("C14", "quick", "VIOLATION", "kani ov_sink lazy::vk_harness::lazy_sink_step clause C14:lazy_sink_first_item_kept_until_delivered")]),
+    "C14-flat-map-buffer-taken-before-ready": ("C14", [("C14", "quick", "VIOLATION", "kani ov_sink flat_map::vk_harness::flat_map_sink_drain_loop clause C14:flat_map_buffer_empty_only_after_everything_was_delivered")]),
+    "C15-merge-source-cursor-fixup-live-cursor": ("C15", [("C15", "quick", "VIOLATION", "kani vk_merge merge_one_poll_n3/n4 clauses C15:cursor_zero_when_empty, C15:cursor_in_range, C15:cursor_designates_next_survivor_after_last_polled")]),
+    "C02-tombstone-map-merge-flag-lost": ("C02", [("C02", "thorough", "VIOLATION", "kani vk_lat coll3::tombstone_map_merge clause C02:changed_iff_value_differs")]),
+    "C03-optionset-is-empty-inverted": ("C03", [("C03", "quick", "VIOLATION", "kani vk_lat coll::set_bot_every_representation clause C03:set_union_is_bot_iff_empty")]),
+    "C04-dompair-incomparable-keys-value-not-merged": ("C04", [("C04", "quick", "VIOLATION", "kani vk_lat twins::dompair_incomparable_keys clause C04:dompair_incomparable_keys_merges_values")]),
+    "C10-counted-hash-set-eq-ignores-counts": ("C10", [("C10", "quick", "missed", "VariadicCountedHashSet is hashbrown-backed: outside CBMC's reach, documented as not covered (DESIGN.md section 5, C10)")]),
 }
 EXTRA = '/verif/seeded/results_extra.json'
 if os.path.exists(EXTRA):
